@@ -244,6 +244,8 @@ def corpus_cases():
                  ("(Duration/3 s)", "TEMPORAL_TAG_ERROR"), ("(Onset,Red)", "TEMPORAL_TAG_ERROR"),
                  ("(Def/MyDef,Offset,(Red))", "TEMPORAL_TAG_ERROR")]:
         add("8_3_0", t, False, e, "corpus-mutant")
+    add("8_3_0", "(Duration/3 s, (Red)), (Blue, (Duration/3 s, (Red)))", False, "TAG_GROUP_ERROR", "top_level_copy")
+    add("8_3_0", "(Def/MyDef, Onset), (Blue, (Green, (Def/MyDef, Onset)))", False, "TAG_GROUP_ERROR", "top_level_copy")
     add("8_3_0", "Label/#", False, "PLACEHOLDER_INVALID", "corpus-mutant")
     add("8_3_0", "Label/#", True, None, "corpus-valid")
     add("8_3_0", "Red, {col}", False, "CHARACTER_INVALID", "corpus-mutant")
